@@ -246,6 +246,7 @@ def rule_c(ctx: Context, R: Reporter, fin: FuncInfo, run: FuncInfo, wfn: FuncInf
     cur_p, tgt_p = params[0], params[1]
     res = it.run_function(up)
     bad = []
+    nan_only = []
     n_ret = 0
     for (rv, events, facts) in res:
         n_ret += 1
@@ -268,16 +269,21 @@ def rule_c(ctx: Context, R: Reporter, fin: FuncInfo, run: FuncInfo, wfn: FuncInf
                 def is_e(v):
                     return all_at(v) == frozenset({s}) and "logz" not in all_kinds(v) and bool(all_at(v))
 
-                if is_e(l) and is_t(r) and ((op == "GtE" and p) or (op == "Lt" and not p) or (op == "Gt" and p)):
+                # only a comparison that came out TRUE supports the return: `not (ESS < target)` also holds for a NaN ESS
+                # (nan weights of a pool whose warm-up batch fell outside the support), `ESS >= target` does not
+                if is_e(l) and is_t(r) and ((op == "GtE" and p) or (op == "Gt" and p)):
                     ok = True
-                if is_t(l) and is_e(r) and ((op == "LtE" and p) or (op == "Gt" and not p) or (op == "Lt" and p)):
+                if is_t(l) and is_e(r) and ((op == "LtE" and p) or (op == "Lt" and p)):
                     ok = True
+                if (is_e(l) and is_t(r) and op == "Lt" and not p) or (is_t(l) and is_e(r) and op == "Gt" and not p):
+                    nan_only.append(s)
         if not ok:
             bad.append(s)
     R.check(
         "C05.c", "the ESS-limit search returns the current beta or a beta at which ESS >= target was observed", not bad and n_ret >= 3, up, up.node,
         msg=f"{up.short}: a path returns beta {bad[0] if bad else '?'} without a supporting `ESS(beta) >= target` test on that path "
-            f"(swapped bisection branches or a bracket end returned unchecked): the schedule can advance to a temperature whose ESS is below the target",
+            f"(swapped bisection branches or a bracket end returned unchecked): the schedule can advance to a temperature whose ESS is below the target"
+            + ("; the path is only supported by a failed `ESS < target` test, which a NaN ESS (non-finite weights) also fails -- the unchanged code does not advance on NaN" if bad and bad[0] in nan_only else ""),
         witness={"unsupported_returns": [str(b) for b in bad][:4], "return_paths": n_ret}, key=f"ess-limit-supported:{up.short}",
     )
     R.analysed["C05.c:upper_limit_paths"] = n_ret
@@ -740,7 +746,8 @@ def variants():
         Variant("e-iter-plus-two", "bad", replace_expr(rw, "Reweighter.run", "self.state.get_current('iter') + 1", "self.state.get_current('iter') + 2"), ["C05.e"]),
         Variant("benign-rename-weights", "benign", alpha_rename(rw, "Reweighter.run", "weights_upper", "w_hi"), quick=True),
         Variant("benign-midpoint-form", "benign", replace_expr(rw, "Reweighter._find_beta_upper_limit", "(beta_high + beta_low) * 0.5", "beta_low + (beta_high - beta_low) / 2")),
-        Variant("benign-upper-test-flipped", "benign", _rewrite_upper_test(rw), quick=True),
+        # formerly listed as benign; it is not: `if ess < T: high = mid else: low = mid` also moves `low` for a NaN ESS (seed C05-h2 demonstrates the advance on nan weights)
+        Variant("c-upper-test-flipped-nan-feasible", "bad", _rewrite_upper_test(rw), ["C05.c"], quick=True),
     ]
 
 
